@@ -217,14 +217,26 @@ def hrandAccept (h : HashT) (count : Option Int) (wv : Bool) (obs : Reply) : Boo
       | some fs => fs.length == hrandLen h.length c && (c < 0 || allDistinct fs)
     | _ => false
 
-/-- one allowed answer (used only to report what was expected when the observed reply is refused) -/
-def hrandDefault (h : HashT) (count : Option Int) (wv : Bool) : Reply :=
+/-- the canonical presentation of a hash: the fields in bytewise order (the insertion sort `canonReply` and the snapshot writer
+    use).  The stored order of the association list is representation detail (Go map iteration order); nothing the model answers
+    may depend on it. -/
+def hrandCanon (h : HashT) : HashT := sortBy (fun a b => bytesLt a.1 b.1) h
+
+/-- the answer that takes the leading fields of the list it is given: the first field; the first `min count len` fields; `|count|`
+    copies of the first field -/
+def hrandFirst (h : HashT) (count : Option Int) (wv : Bool) : Reply :=
   match count with
   | none => (match h with | [] => nil | p :: _ => bulk p.1)
   | some c =>
     let sel : HashT := if c ≥ 0 then h.take (hrandLen h.length c) else
       match h with | [] => [] | p :: _ => List.replicate (hrandLen h.length c) p
     bulks (if wv then flatPairs sel else sel.map Prod.fst)
+
+/-- one allowed answer (the prediction when there is no observation, and what is reported as expected when the observed reply is
+    refused): the bytewise SMALLEST fields.  Chosen from the canonical presentation, so that two presentations of the same hash
+    give the same answer (`Exec.Equiv.hrandDefault_perm`); the first version of the model took a prefix of the stored list, which
+    leaked the representation. -/
+def hrandDefault (h : HashT) (count : Option Int) (wv : Bool) : Reply := hrandFirst (hrandCanon h) count wv
 
 def hrandReply (obs : Option Reply) (h : HashT) (count : Option Int) (wv : Bool) : Reply :=
   match obs with
